@@ -17,7 +17,7 @@ BOUND = ("boundary-free hat basis on [0,1]^d, d<=3; uniform component grids: eve
          "rebalancing on/off, (b) seeded random bisection-tree stripes (point levels <=5, <=17 interior points per dimension, N<=330) fed "
          "to calculate_operation_dimension_wise of an operation initialised by a real zero-step run; data sets of 1..40 samples in the "
          "closed unit cube of kinds random / on dyadic grid lines / on the domain boundary / clustered / mixed; lambda in {0,1e-3,0.1}; "
-         "mass lumping on/off; analytic and numeric (N<=15 resp. 1-D) matrix entries; class labels none or +-1; right-hand side on the "
+         "mass lumping on/off; analytic and numeric (1-D: N<=15, 2-D: N<=3) matrix entries; class labels none or +-1; right-hand side on the "
          "small (N<200), large (N>=200) and reuse (N>=200, previous iteration present) paths, natively on grids with N>=200 and, in the "
          "harness process only, with the size constant 200 of the real functions replaced by 0 / 10**9 on small grids")
 RULE = BOUND + ("; one case = one (grid or run, data set, lambda, mass lumping, numeric, labels) configuration; non-trivial = the grid has >=1 "
@@ -857,13 +857,19 @@ def _run(ctx):
             break
         d = rng.choice([1, 2, 2, 3])
         numeric = rng.random() < 0.25
-        if numeric and d == 3:
-            d = 2 if quick else 3
+        nmax_numeric = None
+        if numeric:
+            # numeric entries: nested adaptive quadrature; once the tolerance typo (epsrel == 1) is repaired a 2-D entry costs seconds,
+            # so 2-D numeric grids are tiny and rare (quick: one with <= 2 points)
+            if d >= 2 and ((quick and k != 1) or (not quick and rng.random() < 0.8)):
+                d = 1
+            d = min(d, 2)
+            nmax_numeric = 15 if d == 1 else (2 if quick else 3)
         grids = []
         for _ in range(1 if numeric else 2):
             while True:
                 s, l = random_tree_grid(rng, d)
-                if not numeric or num_points(s) <= (15 if d <= 2 else 8):
+                if not numeric or num_points(s) <= nmax_numeric:
                     break
             grids.append((s, l))
         case = {"kind": "tree", "d": d, "grids": grids, "lam": rng.choice(LAMBDAS), "ml": rng.random() < 0.3, "numeric": numeric,
